@@ -308,8 +308,8 @@ pub fn run(ctx: &mut Ctx) {
     ];
     ctx.run_regressions::<TearSheetDirect>();
     ctx.run_regressions::<TradingSummaryCheck>();
-    ctx.run::<TearSheetDirect>(ctx.tier.pick(5_000, 120_000));
-    ctx.run::<TradingSummaryCheck>(ctx.tier.pick(2_000, 40_000));
+    ctx.run::<TearSheetDirect>(ctx.tier.pick(80_000, 1_200_000));
+    ctx.run::<TradingSummaryCheck>(ctx.tier.pick(30_000, 400_000));
 }
 
 pub fn replay(ctx: &mut Ctx, doc: &Value) -> bool {
